@@ -79,8 +79,8 @@ def menu_for(kind, tier, full_values=True):
         if any(f == "position" for f, _ in solspec.fields(s["pps"][0]["kind"])) else False))
     for ct in (("f", 0.5), ("i", 3), ("f", 1e-9), ("n", 12.25)):
         m.append(("ct", f"ct={ct[1]!r}:{ct[0]}", lambda s, ct=ct: s.__setitem__("ct", solspec.enc(ct[1], ct[0]))))
-    for pn in ("x", "Intel(R) Core(TM) i7-8550U CPU @ 1.80GHz"):
-        m.append(("proc", f"proc={pn[:5]}", lambda s, pn=pn: s.__setitem__("proc", pn)))
+    for pn in ("x", "Intel(R) Core(TM) i7-8550U CPU @ 1.80GHz", "Intel(R) Xeon(R) CPU           E5-2670 0 @ 2.60GHz", " lead and trail  "):
+        m.append(("proc", f"proc={pn[:5]}" if len(pn) < 45 else f"proc={pn[:5]}..{len(pn)}chars", lambda s, pn=pn: s.__setitem__("proc", pn)))
     m.append(("relabel", "planning-problem-ids-assigned-after-construction", lambda s: s.__setitem__("relabel", True)))
     m.append(("date", "date=None", lambda s: s.__setitem__("date", None)))
     m.append(("date", "date=microseconds", lambda s: s.__setitem__("date", [2019, 12, 31, 23, 59, 59, 999999])))
